@@ -2064,6 +2064,12 @@ func (t *tScreen) CanDisplay(r rune, checkFallbacks bool) bool {
 	t.Lock()
 	defer t.Unlock()
 
+	if r < ' ' || (r >= 0x7f && r < 0xa0) {
+		// control characters encode fine, but are never displayed:
+		// a cell that holds one is shown as a blank
+		return false
+	}
+
 	if enc := t.encoder; enc != nil {
 		nb := make([]byte, 6)
 		ob := make([]byte, 6)
